@@ -23,13 +23,13 @@ En == {R.enabled[i] : i \in 1..Len(R.enabled)}
 
 TInit == tid \in 1..Len(Batch) /\ l = 1 /\ bad = {}
          /\ side = R.side /\ fam = Family(R.decl) /\ decl = R.decl /\ cert = R.cert /\ sign = R.sign /\ blob = R.blob
-         /\ enabled = En /\ probe = R.probe /\ exch = R.exch /\ phase = "start"
+         /\ enabled = En /\ probe = R.probe /\ exch = R.exch /\ banner = R.banner /\ phase = "start"
 
 Clause(ok, name) == IF ok THEN {} ELSE {name}
 
 TNext == /\ l = 1 /\ l' = 2 /\ tid' = tid
          /\ phase' = IF R.accepted THEN "accepted" ELSE "rejected"
-         /\ UNCHANGED <<side, fam, decl, cert, sign, blob, enabled, probe, exch>>
+         /\ UNCHANGED <<side, fam, decl, cert, sign, blob, enabled, probe, exch, banner>>
          /\ bad' = Clause(UsesDeclaredP(R.accepted, decl, sign, blob), "P_accepts_algorithm_other_than_declared")
                    \cup Clause(OnlyEnabledP(R.accepted, sign, blob, enabled), "P_accepts_disabled_algorithm")
                    \cup Clause(~R.accepted => ~MayAccept(decl, sign, blob, enabled) \/ ~SessionAlive(probe, enabled),
